@@ -145,6 +145,23 @@ CLAIMED = {
             "CMHost.tla on every trace, disagreement = tool error); tracer hook placement. Exhaustive only within the per-scenario "
             "DFS bound; interleavings are limited to the scenario families of vlib/async_scen.py.",
             "5 C23"),
+    "C33": ("model_checking",
+            "TLA+ spec CheckMode.tla; TLC enumerates all output-directory states over <=3 (thorough 4) generated files; the real "
+            "CLI runs --check on each; observations judged by the spec (VAL)",
+            "Every assignment of {same, missing, altered, crlf} to the generated files of 3 (thorough 6) generators, with and "
+            "without an unrelated file; exit status, line-ending diagnosis and a before/after snapshot of the directory are "
+            "checked by Conforms in CheckMode.tla.",
+            "Trusted: TLC; mtime+sha256 snapshots as the no-write observation; the CLI is built from the working tree.",
+            "5 C33"),
+    "C16": ("exploration",
+            "WorldGrammar.tla (TLC) enumerates every type constructor in every position; the real CLI runs every backend and "
+            "option variant on each world and on the tests/codegen corpus; a panic outside the repository-declared exclusions "
+            "(derived at run time from crates/test/src/<lang>.rs) is a violation",
+            "Bounded-exhaustive over the world grammar (31 constructors x 14 positions x 2 roles with function kinds and "
+            "directions cycling; thorough: full product) x 8 backends x their option variants: the verdict is the process exit "
+            "status, so this is exploration with a TLA+-defined input space.",
+            "Trusted: generalisation of file-name exclusions to feature sets; wit-parser's notion of a valid world.",
+            "5 C16"),
 }
 
 PENDING_REASON = "check not built yet in this session (planned, see DESIGN.md section 5); not claimed until it runs"
